@@ -1,17 +1,38 @@
 #!/bin/bash
-# benign_check.sh : every check must stay silent on every behaviour-preserving rewrite in selftest/benign
+# benign_check.sh [-j K] [patches...] : every check must stay silent on every behaviour-preserving rewrite in
+# selftest/benign and selftest/benign_ext (K workers, each with its own scratch copy of /repo; never touches /repo)
 ROOT=$(cd "$(dirname "$0")/.." && pwd)
+K=6
+if [ "$1" = "-j" ]; then K=$2; shift 2; fi
 MX=${MXDIR:-/tmp/mxb}; mkdir -p $MX
-[ -d $MX/repo ] || git -C /repo worktree add -q --detach $MX/repo HEAD
-git -C $MX/repo checkout -q -- . ; git -C $MX/repo checkout -q --detach $(git -C /repo rev-parse HEAD)
-export BPV_REPO=$MX/repo BPV_WORK=$MX/work BPV_EVID=$MX/evidence
-mkdir -p $BPV_WORK $BPV_EVID
-RC=0
-for P in $ROOT/selftest/benign/*.patch $ROOT/selftest/benign_ext/*.patch; do
-  cd $MX/repo && git checkout -q -- . && git apply $P || { echo "$(basename $P) APPLY-FAILED"; RC=1; continue; }
-  OUT=$(cd $ROOT && ./bpv all 2>&1)
-  BAD=$(echo "$OUT" | grep "^\[C" | grep -v "violations=0" | awk '{print $1}' | tr '\n' ' ')
-  if [ -n "$BAD" ]; then RC=1; echo "$(basename $P): FALSE ALARM in $BAD"; echo "$OUT" | grep -A2 "^VIOLATION" | grep -v "^VIOLATION\|^--" | cut -c1-260 | head -8; else echo "$(basename $P): silent"; fi
+rm -f $MX/out.*
+if [ $# -gt 0 ]; then LIST=("$@"); else LIST=($ROOT/selftest/benign/*.patch $ROOT/selftest/benign_ext/*.patch); fi
+worker() {
+  local w=$1; shift
+  local D=$MX/w$w; mkdir -p $D
+  [ -d $D/repo ] || git -C /repo worktree add -q --detach $D/repo HEAD
+  git -C $D/repo checkout -q -- . ; git -C $D/repo checkout -q --detach $(git -C /repo rev-parse HEAD)
+  export BPV_REPO=$D/repo BPV_WORK=$D/work BPV_EVID=$D/evidence
+  mkdir -p $BPV_WORK $BPV_EVID
+  local rc=0
+  for P in "$@"; do
+    cd $D/repo && git checkout -q -- . && git clean -fdq src && git apply $P || { echo "$(basename $P) APPLY-FAILED"; rc=1; continue; }
+    OUT=$(cd $ROOT && ./bpv all 2>&1)
+    BAD=$(echo "$OUT" | grep "^\[C" | grep -v "violations=0" | awk '{print $1}' | tr '\n' ' ')
+    if [ -n "$BAD" ]; then rc=1; echo "$(basename $P): FALSE ALARM in $BAD"; echo "$OUT" | grep -A2 "^VIOLATION" | grep -v "^VIOLATION\|^--" | cut -c1-260 | head -8; else echo "$(basename $P): silent"; fi
+  done
+  cd $D/repo && git checkout -q -- .
+  return $rc
+}
+pids=()
+for ((w=0; w<K; w++)); do
+  chunk=()
+  for ((i=w; i<${#LIST[@]}; i+=K)); do chunk+=("${LIST[$i]}"); done
+  [ ${#chunk[@]} -gt 0 ] || continue
+  worker $w "${chunk[@]}" > $MX/out.$w 2>&1 &
+  pids+=($!)
 done
-cd $MX/repo && git checkout -q -- .
+RC=0
+for p in "${pids[@]}"; do wait $p || RC=1; done
+cat $MX/out.* | sort
 exit $RC
